@@ -18,14 +18,31 @@ Definition lp_eval (p : lpred) (x : json) : bool :=
 
 Inductive lop :=
 | LLen | LGet (i : Z) | LSet (i : Z) (v : json) | LDel (i : Z) | LIn (v : json) | LAppend (v : json)
-| LPop (i : Z) | LIter | LKeep (p : lpred) | LRemove (p : lpred).
+| LPop (i : Z) | LIter | LKeep (p : lpred) | LRemove (p : lpred)
+(* it = iter(view); k x next(it); a mutation through the view (failures ignored); list(it): the view's iterator
+   is the list's own (an index into the live list), not a snapshot *)
+| LIterMut (k : nat) (m : lmut)
+with lmut := MuAppend (v : json) | MuDel (i : Z) | MuPop (i : Z) | MuSet (i : Z) (v : json).
 
 Record lcase := { l_id : nat; l_items : list json; l_ops : list lop }.
 
 Definition idj (x : json) : json := x.
 
+Definition apply_mut (data : list json) (m : lmut) : list json :=
+  match m with
+  | MuAppend v => dl_append json json idj data v
+  | MuDel i => match dl_delitem json data i with Ok l => l | Exn _ => data end
+  | MuPop i => match dl_pop json json idj data i with Ok (_, l) => l | Exn _ => data end
+  | MuSet i v => match dl_setitem json json idj data i v with Ok l => l | Exn _ => data end
+  end.
+
 Definition run_lop (data : list json) (o : lop) : otree * list json :=
   match o with
+  | LIterMut k m =>
+      let data' := apply_mut data m in
+      (* k calls of next(): the first min(k, len) items; when the list was shorter the iterator is exhausted for good *)
+      let rest := if Nat.leb k (List.length data) then skipn k data' else [] in
+      (ON "itermut" [ON "first" (map lval (firstn k data)); ON "rest" (map lval rest)], data')
   | LLen => (ON "len" [OZ (zlen data)], data)
   | LGet i => match dl_getitem json json idj data i with
               | Ok x => (ON "get" [lval x], data) | Exn e => (ON "get" [ON "raise" [oexn e]], data) end
